@@ -23,7 +23,8 @@ Text is passed as hex of its UTF-8 bytes (`-` = empty).
 * `c16gsi <durs,…> <R> <tc> <fuel>` → `found <m> <s> <o>` | `assert` | `running`
 -/
 namespace DashLive.Driver.Inject
-open DashLive.Driver DashLive.Options DashLive.OptionErrors DashLive.Inject
+open DashLive.Driver DashLive.OptionErrors DashLive.Inject
+open DashLive.Options (Bytes Val DTCodec Kind ascii findRow firstOnly parseQsl isNoneCI splitOn pyInt)
 
 /-! ### the driver's date-time classifier: C19's model of `from_isodatetime` -/
 
@@ -62,7 +63,7 @@ def isoCodec : DTCodec IsoClass :=
       | _ => none,
     render := fun _ => [] }
 
-def posOther : Pos DrvIso → Bool
+def posOther : DashLive.Options.Pos DrvIso → Bool
   | .at .other => true
   | _ => false
 
